@@ -311,6 +311,7 @@ class SimSocket:
         self.target = None
         self.closed_seq = None
         self.shut = False
+        self.last_io = None          # simulated time of the last send / receive on this socket
         world.ctx().socks.append(self.id)
         no = len(world.open_sockets())
         if no > world.max_open:
@@ -400,6 +401,7 @@ class SimSocket:
 
     def _sendall(self, data, _tls=False):
         w = self._w
+        self.last_io = w.clock.now
         f = w.event("sendall", self, len(data))
         self._check_usable("sendall", _tls)
         conn = self.conn
@@ -483,6 +485,7 @@ class SimSocket:
 
     def _recv(self, n, _tls=False):
         w = self._w
+        self.last_io = w.clock.now
         f = w.event("recv", self, None)
         self._check_usable("recv", _tls)
         conn = self.conn
